@@ -853,7 +853,19 @@ func c20conn(args []string) error {
 		conns[e].Close()
 		h.log(inv, ev20{Stamp: h.stamp(), Ev: "res", Op: op})
 	}
-	if closeMode == "during" {
+	if closeMode == "half" {
+		// A half-closes in the middle of the traffic: its own writers fail from then on, B's reader sees the end of A's
+		// stream, but B goes on writing and A goes on reading until everything has arrived
+		halfway.Wait()
+		op := int(atomic.AddInt64(&h.ops, 1))
+		inv := ev20{Stamp: h.stamp(), Ev: "inv", Op: op, Kind: "closewrite", E: "A", Ok: true}
+		A.CloseWrite()
+		h.log(inv, ev20{Stamp: h.stamp(), Ev: "res", Op: op})
+		wwg.Wait()
+		for i := 0; i < 2000 && atomic.LoadInt64(&gotA) < atomic.LoadInt64(&sentB); i++ {
+			time.Sleep(5 * time.Millisecond)
+		}
+	} else if closeMode == "during" {
 		halfway.Wait()
 	} else {
 		wwg.Wait()
